@@ -71,10 +71,13 @@ def c19_companion_deep_match(case, result):
         return not seq(c) or (len(els(c)) != n and all(plain_i(v, n) for v in els(c)))
     def plain_k(c, ks):
         return not isd(c) or (keys(c) != ks and all(plain_k(v, ks) for _, v in c['D'][1]))
+    tys = case.get('types', 'LTD')      # loop(list) / loop(dict) ...: a container of a type that is not lifted is a leaf
+    def lifted(a):
+        return isinstance(a, dict) and (('L' in a and 'L' in tys) or ('T' in a and 'T' in tys) or ('D' in a and 'D' in tys))
     def has_leaf(a):
-        return not isinstance(a, dict) or any(has_leaf(x) for x in (els(a) if seq(a) else [v for _, v in a['D'][1]]))
+        return not lifted(a) or any(has_leaf(x) for x in (els(a) if seq(a) else [v for _, v in a['D'][1]]))
     def walk(arg, comps):
-        if not has_leaf(arg):      # no leaf below: f is never called, nothing to observe
+        if not lifted(arg) or not has_leaf(arg):      # a leaf, or no leaf below (f is never called, nothing to observe)
             return False
         if seq(arg):
             xs = els(arg); n = len(xs)
@@ -157,20 +160,13 @@ def c11_self_named_column(case, result):
 
 def c16_subclass_constructor_rerun(case, result):
     # a mapping whose class is a subclass with its OWN __init__ signature (PT: x = 0, y = 0, **kw; KO: *, name = 'n', **kw), an operator
-    # that rebuilds its result through type(self)(...) (&, d[[...]], |, relabel), and a deviation that is exactly the re-run constructor:
-    # keyword rebuild (&, relabel): constructor parameters first, given or re-injected defaults, then the other expected items;
-    # positional rebuild (d[[...]], |): PT -> {x: <the whole expected mapping>, y: default}, KO -> TypeError from the constructor
+    # that rebuilds its result through type(self)({...}) (&, d[[...]], |, relabel: the result dict is passed POSITIONALLY since /repo 1b2f78e),
+    # and a deviation that is exactly the re-run constructor: PT -> {x: <the whole expected mapping>, y: its default}, KO -> TypeError
+    # from the keyword-only constructor.  Any other operator, class or deviation stays a violation.
     if case.get('kind') != 'dict' or case.get('cls') not in ('PT', 'KO') or case.get('op') not in ('and', 'getlist', 'or', 'relabel') or not result.get('viol'):
         return False
-    exp = result.get('exp')
-    if exp is None:
+    if result.get('exp') is None:         # the property fixes no result for this input (absent key, ...)
         return False
-    params = {'PT': [('x', -1000), ('y', -1001)], 'KO': [('name', -1002)]}[case['cls']]
-    got = result.get('obs', [None])[0]
-    if case['op'] in ('and', 'relabel'):
-        e = dict((k, v) for k, v in exp)
-        want = [[p, e.get(p, dflt)] for p, dflt in params] + [[k, v] for k, v in exp if k not in dict(params)]
-        return got == [case['cls'], want]
     if case['cls'] == 'KO':
         return result.get('status') == 'TypeError'
-    return got == ['PT', [['x', -2000], ['y', -1001]]]
+    return result.get('obs', [None])[0] == ['PT', [['x', -2000], ['y', -1001]]]
